@@ -169,11 +169,12 @@ macro_rules! dispatch_n {
             13 => $f::<13>($ctx, $idx),
             17 => $f::<17>($ctx, $idx),
             33 => $f::<33>($ctx, $idx),
+            64 => $f::<64>($ctx, $idx),
             65 => $f::<65>($ctx, $idx),
             _ => unreachable!(),
         }
     };
 }
-/// tuple lengths compiled into the harness: the ones zkAbacus uses (1, 3, 5), neighbours, and lengths beyond 16, 32 and 64
+/// tuple lengths compiled into the harness: the ones zkAbacus uses (1, 3, 5), neighbours, and lengths beyond 16, 32 and 64, and 64 itself (a capacity that counts the blinding-factor term too is exceeded exactly there)
 /// (block sizes a batched multi-scalar multiplication or a fixed-size serde array impl might use)
-pub const NS: [usize; 11] = [1, 2, 3, 4, 5, 7, 8, 13, 17, 33, 65];
+pub const NS: [usize; 12] = [1, 2, 3, 4, 5, 7, 8, 13, 17, 33, 64, 65];
